@@ -1,7 +1,7 @@
 (* C16 - the local file system store behaves like an object store.
    Statements only; proofs are in Proofs/LocalFSProofs.v, Base/Paging.v, Base/StrOrder.v. *)
 From Coq Require Import List String NArith Bool Sorted.
-From DM Require Import Base.Str Base.StrOrder Base.Paging Model.LocalFS Proofs.LocalFSProofs.
+From DM Require Import Base.Str Base.StrOrder Base.Paging Base.Listing Model.LocalFS Proofs.LocalFSProofs.
 Import ListNotations.
 Open Scope list_scope.
 
